@@ -127,8 +127,8 @@ impl Drop for EndGuard<'_> {
 type Anc = Vec<(usize, Arc<AtomicBool>)>;
 
 fn check_alive(me: usize, at: &str, anc: &Anc, ctx: &Ctx) -> bool {
-    // this code runs in coroutines that are not unwinding (known finding F10: the flag is per thread, and a
-    // coroutine that parks while it unwinds leaves it raised on its worker)
+    // this code runs in coroutines that are not unwinding (F10: the flag is per thread, and a coroutine that
+    // parks while it unwinds - a scope exit before F10.patch - leaves it raised on its worker)
     if std::thread::panicking() {
         ctx.fail(format!("F10: c{me} is not unwinding but observes thread::panicking() == true ({at})"));
     }
@@ -527,11 +527,9 @@ pub fn build(rng: &mut Rng, tier: u32) -> LiveBuilt {
                 }
                 _ => {} // cancel: Ok (cancel came too late) or Err(Cancel)
             }
+            // (a process is tainted only by an actual `F10:` observation: since F10.patch a scope exit catches the
+            // owner's panic before it waits, so an owner that panics or is cancelled no longer parks while unwinding)
             super::classify_f10(&mut fails);
-            if fname != "none" {
-                // an owner that unwinds through a scope with running children parks while unwinding
-                super::UNWIND_PARK_TAINT.store(true, Ordering::SeqCst);
-            }
             fails
         }),
     }
